@@ -77,7 +77,7 @@ class ctbf:
     def requires(a):
         mh_ok = (a.min_height == None) or (a.min_height >= 0)  # noqa: E711  (no floats here: no size bound needed)
         return both(
-            mh_ok, 0 <= a.maxrow, 0 <= a.valign_amount, a.valign_amount <= 100,
+            mh_ok, 0 <= a.maxrow, implies(a.valign_type == "relative", both(0 <= a.valign_amount, a.valign_amount <= 100)),  # (the amount is not looked at otherwise)
             0 <= a.height_amount, 0 <= a.top, 0 <= a.bottom,
             implies(a.height_type == "relative", a.height_amount <= 100),
         )
@@ -117,7 +117,7 @@ FILLER = Obj(
 def filler_wf(s):
     """Well-formedness of a Filler as its constructor establishes it (normalize_height / normalize_valign)."""
     return both(
-        0 <= s.valign_amount, s.valign_amount <= 100, 0 <= s.top, s.top < PARTMAX, 0 <= s.bottom, s.bottom < PARTMAX,
+        implies(s.valign_type == "relative", both(0 <= s.valign_amount, s.valign_amount <= 100)), 0 <= s.top, s.top < PARTMAX, 0 <= s.bottom, s.bottom < PARTMAX,
         implies(s.height_type == "given", both(s.height_amount >= 0, s.height_amount < PARTMAX)),
         implies(s.height_type == "relative", both(s.height_amount >= 0, s.height_amount <= 100)),
         implies(neg(s.height_type == "relative"), mk_bool(s.min_height.isnone)),
@@ -166,5 +166,6 @@ class filler_values:
         spare = maxrow - req - old.top - old.bottom
         yield "nonneg", both(t >= 0, b >= 0, child >= 0)
         yield "fits", implies(spare >= 0, both(child == req, t >= old.top, b >= old.bottom))
+        yield "margins-dropped", implies(both(spare < 0, req <= maxrow), child == req)
         yield "too-tall", implies(req > maxrow, child == maxrow)
         yield "frame", both(*[eq(s.fields[k], old.fields[k]) for k in ("height_type", "height_amount", "valign_type", "valign_amount", "top", "bottom")])
